@@ -466,7 +466,8 @@ def gen_op_cases(tier, rng):
                 cases.append(dict(kind="reshape", t=t, shape=[a, b], coords=cs, new=[a * b]))
                 cases.append(dict(kind="reshape", t=t, shape=[a, b], coords=cs, new=[b, a]))
         # ---- reductions (kernel level): many stored elements, group offsets beyond the type
-        for nnz_per, groups in [(3, 4), (100, 3), (128, 2), (200, 3)] + ([(40000, 2)] if tier != "quick" else []):
+        # (element counts beyond the 16-bit limits are exercised by the diff stream: Coq literals stay small)
+        for nnz_per, groups in [(3, 4), (100, 3), (128, 2), (200, 3)] + ([(300, 4), (257, 2)] if tier != "quick" else []):
             if groups - 1 <= thi(t):
                 g = [i for i in range(groups) for _ in range(nnz_per)]
                 cases.append(dict(kind="reduce", t=t, groups=g, data=[(i * 7) % 11 + 1 for i in range(len(g))]))
